@@ -30,6 +30,9 @@ def plan(ctx):
         P.append(sweep.universe_shards(PROP, "U-T3", j, frac=16, seed=ctx.seed))
         P.append(sweep.universe_shards(PROP, "U-T4r", j, frac=512, seed=ctx.seed))
     P.append(sweep.family_shards(PROP, "U-Z", j))
+    P.append(sweep.family_shards(PROP, "U-K", j))
+    P.append(sweep.family_shards(PROP, "U-H", 1000))
+    P.append(sweep.family_shards(PROP, "U-A", 2000, all_sizes=True) if ctx.thorough else sweep.family_shards(PROP, "U-A", 2000))
     P.append(sweep.family_shards(PROP, "U-G", j, stride=1 if ctx.thorough else 6, offset=ctx.seed))
     P.append(sweep.family_shards(PROP, "U-E", j))
     P.append(sweep.family_shards(PROP, "U-P2", j, stride=1 if ctx.thorough else 3, offset=ctx.seed))
